@@ -49,15 +49,22 @@ SLAVE_KNOBS = {'n_min': 3, 'n_max': 4,
 SLAVE_COUNT = {'quick': 120, 'thorough': 2000}
 
 
+# the general family again with slow handshakes (each XML-RPC of a handshake takes 0 - 3 s, L3 engine) and instance
+# restarts: requests are emitted and answered while peers are being checked again
+SLOW_KNOBS = dict(KNOBS, handshake_skew=[0.0, 0.3, 1.0, 2.0, 3.0], actions=KNOBS['actions'] + ['restart', 'restart'])
+
+
 def plan(tier, seed):
     return [{'seed': seed * 1000003 + i} for i in range(COUNT[tier])] + \
-        [{'seed': seed * 1000003 + 800000 + i, 'family': 'slave-at-work'} for i in range(SLAVE_COUNT[tier])]
+        [{'seed': seed * 1000003 + 800000 + i, 'family': 'slave-at-work'} for i in range(SLAVE_COUNT[tier])] + \
+        [{'seed': seed * 1000003 + 900000 + i, 'family': 'slow-handshake'} for i in range(COUNT[tier] // 8)]
 
 
 def run_case(case):
     tracker = Tracker()
     mon = ConciliationMonitor(tracker)
-    run = Run(case, SLAVE_KNOBS if case.get('family') == 'slave-at-work' else KNOBS, [tracker, mon])
+    run = Run(case, {'slave-at-work': SLAVE_KNOBS, 'slow-handshake': SLOW_KNOBS}.get(case.get('family'), KNOBS),
+              [tracker, mon])
     violations = run.execute()
     nontrivial = mon.counters.get('conciliation_rounds', 0) > 0
     return {'violations': violations, 'counters': run.counters,
